@@ -1,5 +1,6 @@
 """C05 — Loading depends on what a document says, not on how it is laid out."""
 from harness import casgen, common, refio, sessions
+from harness.common import bud
 from harness.props import c01
 
 PROP = "C05"
@@ -32,8 +33,8 @@ def run(ctx, out, budget):
                 "document. Java-style float literals are substituted in one layout. Non-trivial = distinct (document, layout) pairs "
                 "whose element order differs from the original.")
     rng = ctx.rng(0)
-    n = 60 if budget == "quick" else 4800
-    nlay = 5 if budget == "quick" else 8
+    n = bud(budget, 60, 4800)
+    nlay = bud(budget, 5, 8)
     cases = [casgen.CasGen(rng, n_types=rng.randint(1, 5), n_fs=rng.randint(1, 10), xmi_safe=(kk % 4 != 3)).build() for kk in range(n)]
     stage_a = []
     for g in cases:
@@ -61,7 +62,7 @@ def run(ctx, out, budget):
                 d = [e for e in d if not (e["ty"] == "uima.cas.View" and not dict(map(tuple, e["attrs"])).get("members", "").strip())]
             lay2 = {k: v for k, v in lay.items() if k not in ("order", "drop_empty_views")}
             if li == 1:
-                d = java_floats(d)
+                d = java_floats(d, g.tsinfo())
             ops2.append({"op": "xmi.load", "ts": g.ts, "doc": d, "layout": lay2})
             ops2.append({"op": "cas.dump", "h": nh})
             meta.append(("xmi", len(ops2) - 1, lay["order"] is not None))
@@ -144,14 +145,25 @@ def c04_canon(i, x, ops):
     return x
 
 
-def java_floats(doc):
-    """Java prints 1.0E-5 where Python prints 1E-05: both literals denote the same double"""
+def java_floats(doc, info):
+    """Java prints 1.0E-5 where Python prints 1E-05: both literals denote the same double.  Only attributes of
+    Float/Double features are rewritten (a hex byte array such as 8E01 looks like a float literal, too)."""
     import re
+
+    def float_feats(ty):
+        names = set()
+        while ty in info:
+            for sp in info[ty]["feats"].values():
+                if sp.get("kind") == "prim" and sp.get("range") in ("uima.cas.Double", "uima.cas.Float"):
+                    names.add(sp.get("xml"))
+            ty = info[ty]["super"]
+        return names
     out = []
     for e in doc:
+        ff = float_feats(e["ty"])
         attrs = []
         for k, v in e["attrs"]:
-            if re.fullmatch(r"-?\d(\.\d+)?E-?\d+", v or ""):
+            if k in ff and re.fullmatch(r"-?\d(\.\d+)?E-?\d+", v or ""):
                 m, ex = v.split("E")
                 if "." not in m:
                     m += ".0"
